@@ -52,3 +52,28 @@ fn d6_backslash_in_control_line_arguments() {
         }
     }
 }
+
+/// D8 (C19): a nested adjacent group takes its items from its own block, not from the left of the enclosing block
+#[test]
+fn d8_nested_adjacent_group_stays_inside_the_enclosing_block() {
+    let inner = || {
+        let tag = long("inner").req_flag(());
+        let x = positional::<String>("X");
+        construct!(tag, x).adjacent().map(|(_, x)| x)
+    };
+    let outer = {
+        let tag = long("outer").req_flag(());
+        let i = inner();
+        construct!(tag, i).adjacent().map(|(_, i)| i)
+    };
+    let stray = inner().optional();
+    let p = construct!(outer, stray).to_options();
+    // the block of `--outer` is `--outer --inner a`; `--inner b` on its left belongs to the stray group
+    assert_eq!(
+        p.run_inner(&["--inner", "b", "--outer", "--inner", "a"]).unwrap(),
+        ("a".to_owned(), Some("b".to_owned()))
+    );
+    // a block cut short is a failure, never a value pieced together from items on the left of its first item
+    assert!(p.run_inner(&["--inner", "b", "--outer"]).is_err());
+    assert_eq!(p.run_inner(&["--outer", "--inner", "a"]).unwrap(), ("a".to_owned(), None));
+}
